@@ -16,11 +16,24 @@ use crate::util::{guarded, hex, unhex};
 
 /// run `StreamingDecoder::update` over the pieces; canonical `events | info | err`
 pub fn run_streaming(file: &[u8], cuts: &[usize], opts: &[bool; 5]) -> String {
+    run_streaming_route(file, cuts, opts, false)
+}
+
+/// the same; `via_setters`: the options are installed on a `StreamingDecoder::new()` through its public setters
+/// (`set_ignore_adler32`, `set_ignore_crc`, `set_ignore_text_chunk`, `set_ignore_iccp_chunk`, `set_skip_ancillary_crc_failures`)
+pub fn run_streaming_route(file: &[u8], cuts: &[usize], opts: &[bool; 5], via_setters: bool) -> String {
     let file = file.to_vec();
     let cuts = cuts.to_vec();
     let opts = *opts;
     match guarded(move || {
-        let mut dec = png::StreamingDecoder::new_with_options(decode_options(&opts));
+        let mut dec = if via_setters {
+            match streaming_via_setters(&opts) {
+                Some(d) => d,
+                None => return "SETTER-REFUSED".to_string(),
+            }
+        } else {
+            png::StreamingDecoder::new_with_options(decode_options(&opts))
+        };
         let mut image_data: Vec<u8> = vec![];
         let mut flushed_at = 0usize;
         let mut evs: Vec<String> = vec![];
@@ -67,12 +80,24 @@ pub fn run_streaming(file: &[u8], cuts: &[usize], opts: &[bool; 5]) -> String {
 
 /// decode through `Decoder`/`Reader::next_frame` behind a piece-limited reader; canonical per-frame results
 pub fn run_reader(file: &[u8], cuts: &[usize], opts: &[bool; 5], transform: png::Transformations) -> String {
+    run_reader_route(file, cuts, opts, transform, false)
+}
+
+/// the same; `via_setters` (requires `setters_representable(opts)`): the options are installed on a `Decoder::new(..)` through
+/// the public `Decoder::ignore_checksums`, `set_ignore_text_chunk`, `set_ignore_iccp_chunk`
+pub fn run_reader_route(file: &[u8], cuts: &[usize], opts: &[bool; 5], transform: png::Transformations, via_setters: bool) -> String {
     let file = file.to_vec();
     let cuts = cuts.to_vec();
     let opts = *opts;
     match guarded(move || {
         let rd = PieceReader::new(file, cuts);
-        let mut dec = png::Decoder::new_with_options(rd, decode_options(&opts));
+        let mut dec = if via_setters && setters_representable(&opts) {
+            let mut d = png::Decoder::new(rd);
+            apply_decoder_setters(&mut d, &opts);
+            d
+        } else {
+            png::Decoder::new_with_options(rd, decode_options(&opts))
+        };
         dec.set_transformations(transform);
         let mut out = String::new();
         let mut reader = match dec.read_info() {
@@ -403,12 +428,55 @@ pub fn flush_carrying_files(rng: &mut Rng) -> Vec<(Vec<u8>, u32)> {
     out
 }
 
+/// The same corner with MORE image data than the header announces (tolerated by the decoder, like libpng: the surplus is
+/// discarded): the raw size lies just above 32 / 64 / 128 KiB and 1 .. 40000 surplus zero bytes follow.  With the whole file in
+/// one piece the output buffer of the inflater is exactly full when the last compressed byte has been taken in, what is
+/// pending exceeds the room the announced size leaves, and `finish_compressed_chunks` has to hand data over INSIDE its
+/// flush loop (zlib.rs 139-146) - a path no well-formed image reaches.  Fed in small pieces the same bytes never get there.
+pub fn surplus_data_files(rng: &mut Rng) -> Vec<(Vec<u8>, u32)> {
+    use crate::refpng::*;
+    let mut out = vec![];
+    for (k, (w, h, color, depth, extra)) in [(442u32, 296u32, 0u8, 8u8, 1usize), (99, 328, 0, 8, 300), (64, 256, 6, 8, 40_000), (799, 41, 0, 1, 7), (128, 255, 4, 8, 2000)].into_iter().enumerate() {
+        let mut img = Img::random(rng, color, depth, w, h);
+        let rb = img.row_bytes();
+        for b in img.pixels[(k % 3) * rb..].iter_mut() {
+            *b = 0;
+        }
+        let (mut raw, _) = scanlines(&img, false, &Filters::Uniform(0), rng);
+        raw.extend(std::iter::repeat(0u8).take(extra));
+        let z = zlib_stream(&raw, &Deflater::Level([6u32, 9, 1][k % 3]));
+        out.push((serialize(&[ihdr(w, h, depth, color, 0), RawChunk::new(b"IDAT", z), RawChunk::new(b"IEND", vec![])]), h));
+    }
+    out
+}
+
 /// Reader-level call sequences that mix row calls and frame calls, under two deliveries: the traces (cut after the first
 /// error) must be equal
 fn mixed_calls_part(ctx: &mut Ctx, rng: &mut Rng) {
     use crate::rops::{self, Config, Op};
     let cfg = Config::default();
     let mut files = flush_carrying_files(rng);
+    let surplus = surplus_data_files(rng);
+    // the surplus-data files under the option sets that differ in the checksum switches, installed through the public setters
+    // (`Decoder::ignore_checksums`): the complete Reader result must not depend on the delivery (the Adler-32 of these
+    // streams is correct)
+    for (file, _) in &surplus {
+        let n = file.len();
+        for opts in [DEFAULT_OPTS, [true, true, false, false, true], [false, false, false, false, true]] {
+            let whole = run_reader_route(file, &[], &opts, png::Transformations::IDENTITY, true);
+            for (name, cuts) in [("byte-wise", (1..n).collect::<Vec<usize>>()), ("7", (1..n).step_by(7).collect()), ("random", { let mut c: Vec<usize> = (0..5).map(|_| rng.usize(1, n - 1)).collect(); c.sort(); c })] {
+                ctx.rep.eval(true, fnv64(file) ^ fnv64(name.as_bytes()) ^ fnv64(opts_string(&opts).as_bytes()));
+                ctx.rep.count("surplus image data: options (Decoder setters)", &opts_string(&opts));
+                let r = run_reader_route(file, &cuts, &opts, png::Transformations::IDENTITY, true);
+                if r != whole {
+                    let key = if r.starts_with("PANIC") || whole.starts_with("PANIC") { "reader/panic".to_string() } else { format!("reader/surplus-data-result-differs/adler-check-{}", if opts[0] { "off" } else { "on" }) };
+                    ctx.rep.violation("oracle", &key, &format!("image with more data than announced, options {} through the Decoder setters: whole file `{}`, delivery {} `{}`", opts_string(&opts), trunc(&whole), name, trunc(&r)),
+                        case_json(file, &[], &cuts[..cuts.len().min(3000)], &opts, "reader-setters"));
+                }
+            }
+        }
+    }
+    files.extend(surplus);
     for f in crate::props::reader_props::small_valid_files(rng, ctx.n(6, 24)) {
         let h = png::Decoder::new(std::io::Cursor::new(&f.bytes[..])).read_info().map(|r| r.info().height).unwrap_or(1);
         files.push((f.bytes, h));
@@ -488,8 +556,20 @@ pub fn replay(ctx: &mut Ctx, case: &J) {
         }
         return;
     }
-    let opts = DEFAULT_OPTS;
+    let mut opts = DEFAULT_OPTS;
+    if path == "reader-setters" {
+        for (i, ch) in case.get("opts").and_then(|x| x.as_str()).unwrap_or("10001").chars().enumerate().take(5) {
+            opts[i] = ch == '1';
+        }
+    }
     match path {
+        "reader-setters" => {
+            let (ra, rb) = (run_reader_route(&file, &a, &opts, png::Transformations::IDENTITY, true), run_reader_route(&file, &b, &opts, png::Transformations::IDENTITY, true));
+            println!("A: {}\nB: {}", trunc(&ra), trunc(&rb));
+            if ra != rb {
+                ctx.rep.violation("oracle", &format!("reader/surplus-data-result-differs/adler-check-{}", if opts[0] { "off" } else { "on" }), &format!("`{}` vs `{}`", trunc(&ra), trunc(&rb)), case.clone());
+            }
+        }
         "reader" => {
             let (ra, rb) = (run_reader(&file, &a, &opts, png::Transformations::IDENTITY), run_reader(&file, &b, &opts, png::Transformations::IDENTITY));
             if ra != rb {
